@@ -236,18 +236,23 @@ def check_interval(acc, mods, fa, dur, fb):
         forms.append((f"{ta}Z/{tb}Z", fa, end, "start/end"))
     if start2 is not None and 2 <= start2[0] <= 9998:
         forms.append((f"{ds}/{ta}Z", start2, fa, "duration/end"))
-    for s, es, ee, kind in forms:
+    # the same strings without a UTC designator, read in the zone given by the tz option (a fixed offset: the wall-clock
+    # model of the duration arithmetic stays valid) - both endpoints must be in that zone
+    tzopt = pendulum.FixedTimezone(19800)
+    forms = [(s_, es, ee, kind, None, 0) for s_, es, ee, kind in forms] + \
+            [(s_.replace("Z", ""), es, ee, kind + "/tz-option", tzopt, 19800) for s_, es, ee, kind in forms]
+    for s, es, ee, kind, tzo, eoff in forms:
         case = {"kind": "iv", "fa": list(fa), "dur": dur}
         acc.c["evaluations"] += 1
         acc.c["transitions"] += 1
         try:
-            r = pendulum.parse(s)
+            r = pendulum.parse(s) if tzo is None else pendulum.parse(s, tz=tzo)
             got = (type(r).__name__, obs.fields(r.start), obs.offset_s(r.start), obs.fields(r.end), obs.offset_s(r.end))
         except ValueError:
             got = ("ValueError",)
         except Exception as e:  # noqa: BLE001
             got = (type(e).__name__, str(e)[:60])
-        want = ("Interval", tuple(es), 0, tuple(ee), 0)
+        want = ("Interval", tuple(es), eoff, tuple(ee), eoff)
         if got != want:
             acc.mismatch("interval", kind, dict(case, s=s), got, want)
 
